@@ -181,6 +181,8 @@ def arm_tokens(crate, b, reg, pos_l, len_l):
                     if not st.startswith("Human") and st not in ("FormattedDuration", "DecimalBytes", "BinaryBytes", "StyledObject", "PaddedStringDisplay", "String", "str"):
                         toks.add("fmt:" + st)
             m = K.meth(c.path)
+            if c.matches(r"(std|core)::f(32|64)::<impl f(32|64)>::(round|ceil|floor|trunc|round_ties_even)"):
+                toks.add("fround:" + m)        # a rounding step between the getter and the formatter changes the value shown
             if c.path.startswith("state::ProgressState::") and m in ACCESSORS:
                 toks.add("call:" + m)
             if c.path.startswith("state::ProgressState::") and m in ("pos", "len"):
@@ -328,7 +330,7 @@ def _key_arms_part(ctx, crate, rule, b, pos_l, len_l):
             continue
         have = arm_tokens(crate, b, reg, pos_l, len_l)
         # tokens of interest only
-        have_i = {t for t in have if t.split(":")[0] in ("wrap", "src", "call", "expanded", "wide", "fmt", "prec") or t == "x100"}
+        have_i = {t for t in have if t.split(":")[0] in ("wrap", "src", "call", "expanded", "wide", "fmt", "prec", "fround") or t == "x100"}
         if "fmt:u64" not in want:
             have_i.discard("fmt:u64")
         if not any(t.startswith("prec:") for t in want):
